@@ -1210,7 +1210,7 @@ int main()
                         static const std::vector<std::pair<std::string, int>> codes = {
                             {"An optimization objective must", 1}, {"At least one start state must", 2}, {"sampleable goal region", 3},
                             {"at least 1 start and", 4}, {"only supports Unknown, RealVector, SE2, and SE3", 5}, {"not a wrapper around", 6},
-                            {"does not have exactly 2 subspaces", 7}, {"contains a subspace (", 8}, {"Provided compound state space of type", 9}};
+                            {"does not have exactly 2 subspaces", 7}, {"exactly one R^N and one SO", 10}, {"contains a subspace (", 8}, {"Provided compound state space of type", 9}};
                         int code = 0;
                         for (auto &c : codes)
                             if (m.find(c.first) != std::string::npos)
